@@ -58,6 +58,7 @@ type Case struct {
 	Vals   []uk.ValSpec `json:"vals"`
 	Seed   uint8        `json:"seed"`
 	Cert   bool         `json:"cert"`
+	Legacy bool         `json:"legacy"` // protocol version below YouV5 (no slashing evidence; the tally rules are the same)
 	Ops    []Op         `json:"ops"`
 }
 
@@ -66,6 +67,7 @@ var kinds = []ucon.VoteType{ucon.Prevote, ucon.Precommit, ucon.NextIndex, ucon.C
 func genCase(t *rapid.T) Case {
 	c := Case{Params: rapid.IntRange(0, 2).Draw(t, "params"), Seed: uint8(rapid.IntRange(0, 3).Draw(t, "seed"))}
 	c.Cert = rapid.IntRange(0, 2).Draw(t, "cert") == 0
+	c.Legacy = rapid.IntRange(0, 3).Draw(t, "legacy") == 0
 	T := triples[c.Params][1]
 	if c.Cert {
 		T = triples[c.Params][2]
@@ -183,6 +185,7 @@ func blsSig(key int, payload []byte) []byte {
 type world struct {
 	c       Case
 	set     *uk.Set
+	certSet *uk.Set // look-back set of the certificate committee (certificate rounds): same validators, other stakes and ranks
 	trip    [3]uint64
 	yp      *params.YouParams
 	chain   *uk.FakeChain
@@ -241,10 +244,19 @@ func (w *world) seedT(step uint32) (common.Hash, uint64) {
 	return w.chain.SeedOf(w.round - w.yp.SeedLookBack), w.trip[1]
 }
 
+// setOf returns the look-back set a credential of this step is judged against.
+func (w *world) setOf(step uint32) *uk.Set {
+	if step == 5 && w.isCert() && w.certSet != nil {
+		return w.certSet
+	}
+	return w.set
+}
+
 func (w *world) credOf(i int, step uint32, ri uint32) uk.Credential {
 	seed, T := w.seedT(step)
-	sp := w.set.Specs[i]
-	return cred(sp.Key, seed, ri, step, T, sp.Stake, w.set.TotalChamber)
+	set := w.setOf(step)
+	sp := set.Specs[i]
+	return cred(sp.Key, seed, ri, step, T, sp.Stake, set.TotalChamber)
 }
 
 func quorum(T uint64, frac float64) uint64 { return uint64(uint32(float64(T) * frac)) }
@@ -294,7 +306,7 @@ func (w *world) block(proposer int, id int, variant int) (*types.Block, *ucon.Bl
 	}
 	parent := w.chain.CurrentHeader()
 	h := uk.NewHeader(parent, w.round)
-	h.CurrVersion = w.yp.Version
+	h.CurrVersion = version(w.c.Params)
 	h.Extra = []byte{byte(id), byte(variant)}
 	seedNext, _ := uk.PoolKey(sp.Key).Vrf.Evaluate([]byte{byte(id)})
 	cd := &ucon.BlockConsensusData{Round: new(big.Int).SetUint64(w.round), RoundIndex: w.index, Seed: seedNext,
@@ -373,7 +385,8 @@ func (w *world) sendVote(kind ucon.VoteType, sender int, hash common.Hash, varia
 	if variant == 8 {
 		seed = w.chain.SeedOf(r - w.yp.SeedLookBack)
 	}
-	cr := cred(sp.Key, seed, credRI, credStep, T, sp.Stake, w.set.TotalChamber)
+	cset := w.setOf(credStep)
+	cr := cred(sp.Key, seed, credRI, credStep, T, cset.Specs[sender].Stake, cset.TotalChamber)
 	votes := cr.J
 	if variant == 3 {
 		votes++
@@ -386,7 +399,7 @@ func (w *world) sendVote(kind ucon.VoteType, sender int, hash common.Hash, varia
 	if variant == 9 {
 		msgKey = w.set.Specs[(sender+1)%len(w.set.Specs)].Key
 	}
-	vote := &ucon.SingleVote{VoterIdx: uint32(w.set.Index[sender]), Votes: votes, Proof: cr.Proof,
+	vote := &ucon.SingleVote{VoterIdx: uint32(w.setOf(step).Index[sender]), Votes: votes, Proof: cr.Proof,
 		Signature: blsSig(sp.Key, uk.VotePayload(sigHash, r, ri))}
 	msg := uconrig.VoteMessage(msgKey, codeOf[kind], r, ri, hash, common.Hash{}, vote)
 	err := w.rig.HandleMsg(msg)
@@ -423,6 +436,9 @@ func runCase(c Case) kit.Result {
 		return kit.Discarded("set: " + err.Error())
 	}
 	yp := params.Versions[version(c.Params)]
+	if c.Legacy {
+		yp.Version = params.YouV4 // what CurrentYouParams().Version reports; the table key stays private
+	}
 	w := &world{c: c, set: set, trip: triples[c.Params], yp: &yp, blocks: map[string]*types.Block{}, labels: map[string]bool{}}
 	w.round = 40
 	if c.Cert {
@@ -437,6 +453,23 @@ func runCase(c Case) kit.Result {
 		}
 	}
 	w.chain = uk.NewFakeChain(set, w.yp, w.round-1, c.Seed)
+	w.chain.HeaderVersion = version(c.Params)
+	if c.Cert {
+		// the certificate committee is drawn from an older look-back block: same validators,
+		// but the online chamber members' stakes rotated, so stakes and ranks (VoterIdx) differ
+		cs := append([]uk.ValSpec(nil), c.Vals...)
+		for k, m := range w.members {
+			cs[m].Stake = c.Vals[w.members[(k+1)%len(w.members)]].Stake
+		}
+		w.certSet, err = uk.BuildSetOn(set.DB, cs)
+		if err != nil {
+			return kit.Discarded("cert set: " + err.Error())
+		}
+		w.chain.CertValRoot = &w.certSet.ValRoot
+		if fmt.Sprint(w.certSet.Index) != fmt.Sprint(set.Index) {
+			w.labels["cert-ranks-differ"] = true
+		}
+	}
 	own := uk.PoolKey(c.Vals[0].Key)
 	rig, err := ucon.VerifNewRig(youdb.NewMemDatabase(), w.chain, own.Ecdsa, own.BlsSk, w.yp, w.round)
 	if err != nil {
@@ -569,7 +602,7 @@ func runCase(c Case) kit.Result {
 					}
 				}()
 				if w.isCert() {
-					verr = verifier.VerifySideChainHeader(&cp, seedHeader, set.Reader, w.chain.GetHeaderByNumber(0), set.Reader, blk, []*types.Block{parent})
+					verr = verifier.VerifySideChainHeader(&cp, seedHeader, set.Reader, w.chain.GetHeaderByNumber(0), w.certSet.Reader, blk, []*types.Block{parent})
 				} else {
 					verr = verifier.VerifySideChainHeader(&cp, seedHeader, set.Reader, nil, nil, blk, []*types.Block{parent})
 				}
@@ -760,6 +793,9 @@ func runCase(c Case) kit.Result {
 	}
 	if c.Cert {
 		ls = append(ls, "cert-round")
+	}
+	if c.Legacy {
+		ls = append(ls, "legacy-version")
 	}
 	if adversarial > 0 {
 		ls = append(ls, "adversarial")
